@@ -49,8 +49,10 @@ Definition outcome_cmp (model impl : outcome) : nat :=
   end%nat.
 
 (* oracle tables *)
+(* an entry whose result is ReBad (the pattern does not compile) answers for every text *)
+Definition is_bad (r : re_result) : bool := match r with ReBad => true | _ => false end.
 Definition tbl_search (t : list (string * string * re_result)) (p s : string) : option re_result :=
-  match find (fun e => String.eqb (fst (fst e)) p && String.eqb (snd (fst e)) s) t with
+  match find (fun e => String.eqb (fst (fst e)) p && (is_bad (snd e) || String.eqb (snd (fst e)) s)) t with
   | Some e => Some (snd e) | None => None end.
 Definition tbl_sub (t : list (string * string * string * option string)) (p r s : string) : option (option string) :=
   match find (fun e => String.eqb (fst (fst (fst e))) p && String.eqb (snd (fst (fst e))) r && String.eqb (snd (fst e)) s) t with
